@@ -17,8 +17,10 @@ import (
 	"io/fs"
 	"math/rand"
 	"os"
+	"runtime"
 	"sort"
 	"strings"
+	"sync/atomic"
 	"testing/fstest"
 	"time"
 
@@ -116,26 +118,68 @@ func listOf(ps []nv) string {
 	return strings.Join(xs, ",")
 }
 
-// run executes the real Extract on the bytes.
+// run executes the real Extract on the bytes, under recover, a 5 s watchdog (pk=hang: the goroutine is abandoned) and,
+// through memGuard, a heap bound (pk=oom: the stream ends there, what was produced so far is kept).
 func run(f *format, data []byte) string {
-	return hx.Guard(func() string {
-		in := &filesystem.ScanInput{
-			FS:     fstest.MapFS{},
-			Path:   f.path,
-			Root:   "",
-			Info:   fakeInfo{name: f.path, size: int64(len(data))},
-			Reader: strings.NewReader(string(data)),
+	done := make(chan string, 1)
+	go func() {
+		done <- hx.Guard(func() string {
+			in := &filesystem.ScanInput{
+				FS:     fstest.MapFS{},
+				Path:   f.path,
+				Root:   "",
+				Info:   fakeInfo{name: f.path, size: int64(len(data))},
+				Reader: strings.NewReader(string(data)),
+			}
+			inv, err := f.ex.Extract(context.Background(), in)
+			if err != nil {
+				return "pk=err"
+			}
+			ps := make([]nv, 0, len(inv.Packages))
+			for _, p := range inv.Packages {
+				ps = append(ps, nv{p.Name, p.Version})
+			}
+			return "pk=" + listOf(ps)
+		})
+	}()
+	select {
+	case r := <-done:
+		return r
+	case <-time.After(caseWatchdog):
+		hangs[f.name]++
+		return "pk=hang"
+	}
+}
+
+const (
+	caseWatchdog = 5 * time.Second
+	maxHangs     = 2       // per format: afterwards the format is dropped from the stream (each hang leaves a spinning goroutine behind)
+	heapBound    = 1 << 30 // bytes of live heap during one Extract
+)
+
+var (
+	hangs   = map[string]int{}
+	dropped = map[string]int{} // format -> cases not generated after repeated hangs
+	curCase atomic.Value        // the case line in flight (string), for memGuard
+	curCls  atomic.Value
+)
+
+// memGuard ends the stream when an Extract call allocates without bound: the case in flight is reported as pk=oom.
+func memGuard(out *hx.Out) {
+	var ms runtime.MemStats
+	for {
+		time.Sleep(20 * time.Millisecond)
+		runtime.ReadMemStats(&ms)
+		if ms.HeapAlloc > heapBound {
+			if l, _ := curCase.Load().(string); l != "" {
+				c, _ := curCls.Load().(string)
+				out.Emit(l, "pk=oom cls="+c)
+			}
+			out.Flush()
+			fmt.Fprintf(os.Stderr, "c03gen: live heap above %d MiB during Extract: stream ended early\n", heapBound>>20)
+			os.Exit(0)
 		}
-		inv, err := f.ex.Extract(context.Background(), in)
-		if err != nil {
-			return "pk=err"
-		}
-		ps := make([]nv, 0, len(inv.Packages))
-		for _, p := range inv.Packages {
-			ps = append(ps, nv{p.Name, p.Version})
-		}
-		return "pk=" + listOf(ps)
-	})
+	}
 }
 
 func caseLine(f *format, c gcase) (string, bool) {
@@ -162,8 +206,15 @@ func caseLine(f *format, c gcase) (string, bool) {
 }
 
 func emitCase(out *hx.Out, f *format, c gcase) {
+	if hangs[f.name] >= maxHangs {
+		dropped[f.name]++
+		return
+	}
 	line, ok := caseLine(f, c)
+	curCls.Store(f.name + "/" + c.class)
+	curCase.Store(line)
 	reply := run(f, c.data)
+	curCase.Store("")
 	if !ok {
 		// (b) format whose decoder failed: the implementation must fail too (or the harness decoder is out of step)
 		if reply != "pk=err" {
@@ -191,13 +242,23 @@ func replay(out *hx.Out, l string) {
 		data = b
 	}
 	// the case line is re-emitted VERBATIM (incl. the decoded document it carries) so that model and oracle see what was recorded
-	out.Emit(l, run(f, data)+" cls="+f.name+"/replay")
+	curCls.Store(f.name + "/replay")
+	curCase.Store(l)
+	reply := run(f, data)
+	curCase.Store("")
+	out.Emit(l, reply+" cls="+f.name+"/replay")
 }
 
 func main() {
 	o := hx.Parse()
 	out := hx.NewOut()
 	defer out.Flush()
+	go memGuard(out)
+	defer func() {
+		for f, n := range dropped {
+			fmt.Fprintf(os.Stderr, "c03gen: %s: %d case(s) not generated after %d hangs\n", f, n, maxHangs)
+		}
+	}()
 	for _, f := range formats {
 		if !f.ex.FileRequired(simplefileapi.New(f.path, fakeInfo{name: f.path, size: 10})) {
 			fmt.Fprintf(os.Stderr, "c03gen: extractor %s does not accept %s\n", f.ex.Name(), f.path)
